@@ -566,6 +566,9 @@ pub fn extract_to_dir<RS: Read + Seek + HasLength>(
     // try first with zip lib...
     let source = CloneableSeekableReader::new(source);
     if let Ok(mut zip_archive) = zip::ZipArchive::new(source.clone()) {
+        // files created by this call. Member names that denote the same file (e.g. `a.dlt` and `./a.dlt`)
+        // shall not overwrite each other: the first one wins, later ones are skipped.
+        let mut created_files: std::collections::HashSet<PathBuf> = std::collections::HashSet::new();
         for i in 0..zip_archive.len() {
             if shall_cancel.load(Ordering::Relaxed) {
                 return Err(std::io::Error::new(
@@ -601,8 +604,18 @@ pub fn extract_to_dir<RS: Read + Seek + HasLength>(
                             if std::fs::create_dir_all(target_dir).is_err() {
                                 continue;
                             }
-                            let mut target_file = match std::fs::File::create(target_file) {
-                                Ok(f) => f,
+                            if let Ok(existing) = target_file.canonicalize() {
+                                if created_files.contains(&existing) {
+                                    continue;
+                                }
+                            }
+                            let mut target_file = match std::fs::File::create(&target_file) {
+                                Ok(f) => {
+                                    if let Ok(created) = target_file.canonicalize() {
+                                        created_files.insert(created);
+                                    }
+                                    f
+                                }
                                 Err(_) => continue,
                             };
                             // use a cancelable copy here
